@@ -3711,6 +3711,150 @@ class Normalizer:
                 self.stats['idioms'] += 1
                 self.log.append(f'parameter object {R} exploded back into keyword-only parameters ({len(takers)} functions, {len(plan)} call sites)')
 
+    def _new_class_to_closures(self):
+        """"Extract class" undone: a NEW dataclass K (not in the inventory) that is instantiated at exactly one place,
+        `x = K(..)` inside a function F, and used there only as `x.<field>` (read) and `x.<method>`: the fields are F's
+        locals again (the constructor argument when that is a plain name, a new local otherwise) and the methods are nested
+        functions of F that close over them - the form the code had before the shared state was moved into an object."""
+        for rel, tree in self.trees.items():
+            inv = self.inv.get(rel)
+            if inv is None:
+                continue
+            for K in [c for c in tree.body if isinstance(c, ast.ClassDef) and c.name not in inv['classes']]:
+                if not any((_dotted(d.func if isinstance(d, ast.Call) else d) or '').rsplit('.', 1)[-1] == 'dataclass' for d in K.decorator_list) or K.bases:
+                    continue
+                fields, ok = [], True
+                methods = []
+                for st in K.body:
+                    if isinstance(st, ast.AnnAssign) and isinstance(st.target, ast.Name):
+                        fields.append((st.target.id, st.value))
+                    elif isinstance(st, ast.FunctionDef) and not st.decorator_list and not (st.name.startswith('__') and st.name.endswith('__')):
+                        methods.append(st)
+                    elif isinstance(st, ast.Expr) and isinstance(st.value, ast.Constant):
+                        continue
+                    elif isinstance(st, ast.Pass):
+                        continue
+                    else:
+                        ok = False
+                if not ok or not methods or not fields:
+                    continue
+                cons = [n for n in ast.walk(tree) if isinstance(n, ast.Call) and isinstance(n.func, ast.Name) and n.func.id == K.name]
+                refs = [n for n in ast.walk(tree) if isinstance(n, ast.Name) and n.id == K.name]
+                if len(cons) != 1 or len(refs) != 1:
+                    continue
+                con = cons[0]
+                F = None
+                for f in ast.walk(tree):
+                    if isinstance(f, FuncNode) and any(con is x for x in _local_walk(f)):
+                        F = f
+                if F is None:
+                    continue
+                parents = {}
+                for n in ast.walk(F):
+                    for ch in ast.iter_child_nodes(n):
+                        parents[id(ch)] = n
+                asg = parents.get(id(con))
+                if not (isinstance(asg, ast.Assign) and len(asg.targets) == 1 and isinstance(asg.targets[0], ast.Name)):
+                    continue
+                x = asg.targets[0].id
+                if sum(1 for n in ast.walk(F) if isinstance(n, ast.Name) and n.id == x and isinstance(n.ctx, (ast.Store, ast.Del))) != 1:
+                    continue
+                fnames = [f_ for f_, _ in fields]
+                mnames = [m.name for m in methods]
+                uses = [n for n in ast.walk(F) if isinstance(n, ast.Name) and n.id == x and isinstance(n.ctx, ast.Load)]
+                if not all(isinstance(parents.get(id(u)), ast.Attribute) and parents[id(u)].value is u and isinstance(parents[id(u)].ctx, ast.Load) and parents[id(u)].attr in fnames + mnames for u in uses):
+                    continue
+                # constructor arguments
+                if any(isinstance(a, ast.Starred) for a in con.args) or any(k.arg is None for k in con.keywords) or len(con.args) > len(fnames):
+                    continue
+                vals = dict(zip(fnames, con.args))
+                vals.update({k.arg: k.value for k in con.keywords})
+                taken = {n.id for n in ast.walk(F) if isinstance(n, ast.Name)} | {a.arg for a in ast.walk(F) if isinstance(a, ast.arg)}
+                alias, new_locals = {}, []
+                for fname, default in fields:
+                    v = vals.get(fname)
+                    if v is None:
+                        if isinstance(default, ast.Call) and (_dotted(default.func) or '').rsplit('.', 1)[-1] == 'field':
+                            df = next((k.value for k in default.keywords if k.arg == 'default_factory'), None)
+                            dv = next((k.value for k in default.keywords if k.arg == 'default'), None)
+                            if df is not None:
+                                v = {'dict': ast.Dict(keys=[], values=[]), 'list': ast.List(elts=[], ctx=ast.Load())}.get(df.id) if isinstance(df, ast.Name) and df.id in ('dict', 'list') else ast.Call(func=copy.deepcopy(df), args=[], keywords=[])
+                            elif dv is not None:
+                                v = copy.deepcopy(dv)
+                        elif default is not None and isinstance(default, ast.Constant):
+                            v = copy.deepcopy(default)
+                    if v is None:
+                        ok = False
+                        break
+                    if isinstance(v, ast.Name):
+                        alias[fname] = v.id
+                    else:
+                        ln = fname if fname not in taken else self._fresh(fname, taken)
+                        taken.add(ln)
+                        alias[fname] = ln
+                        new_locals.append(ast.Assign(targets=[ast.Name(id=ln, ctx=ast.Store())], value=copy.deepcopy(v)))
+                if not ok:
+                    continue
+                # methods -> nested functions
+                mlocal = {}
+                for m in methods:
+                    ln = m.name if m.name not in taken else self._fresh(m.name, taken)
+                    taken.add(ln)
+                    mlocal[m.name] = ln
+                nested = []
+                for m in methods:
+                    a = m.args
+                    if not (a.posonlyargs + a.args):
+                        ok = False
+                        break
+                    sname = (a.posonlyargs + a.args)[0].arg
+                    cp = copy.deepcopy(m)
+                    if cp.args.posonlyargs:
+                        cp.args.posonlyargs.pop(0)
+                    else:
+                        cp.args.args.pop(0)
+                    mp = {}
+                    for n in ast.walk(cp):
+                        for ch in ast.iter_child_nodes(n):
+                            mp[id(ch)] = n
+                    params = {q.arg for q in ast.walk(cp.args) if isinstance(q, ast.arg)}
+                    locs = {n.id for n in ast.walk(cp) if isinstance(n, ast.Name) and isinstance(n.ctx, ast.Store)} | params
+                    if locs & (set(alias.values()) | set(mlocal.values())):
+                        ok = False
+                        break
+                    for u in [n for n in ast.walk(cp) if isinstance(n, ast.Name) and n.id == sname]:
+                        at = mp.get(id(u))
+                        if not (isinstance(at, ast.Attribute) and at.value is u and at.attr in fnames + mnames and isinstance(at.ctx, ast.Load)):
+                            ok = False
+                            break
+                        tgt = alias[at.attr] if at.attr in alias else mlocal[at.attr]
+                        self._replace_everywhere(cp, at, ast.copy_location(ast.Name(id=tgt, ctx=ast.Load()), at))
+                    if not ok:
+                        break
+                    cp.name = mlocal[m.name]
+                    cp.returns = None
+                    nested.append(cp)
+                if not ok:
+                    continue
+                for u in uses:
+                    at = parents[id(u)]
+                    tgt = alias[at.attr] if at.attr in alias else mlocal[at.attr]
+                    self._replace_everywhere(F, at, ast.copy_location(ast.Name(id=tgt, ctx=ast.Load()), at))
+                done = False
+                for owner in ast.walk(F):
+                    for fld in ('body', 'orelse', 'finalbody'):
+                        blk = getattr(owner, fld, None)
+                        if isinstance(blk, list) and any(b is asg for b in blk):
+                            i = next(k for k, b in enumerate(blk) if b is asg)
+                            blk[i : i + 1] = [ast.copy_location(n_, asg) for n_ in new_locals] + [ast.copy_location(n_, asg) for n_ in nested]
+                            done = True
+                if not done:
+                    continue
+                tree.body = [b for b in tree.body if b is not K]
+                ast.fix_missing_locations(tree)
+                self.stats['idioms'] += 1
+                self.log.append(f'new class {K.name} (one instance in {F.name}) turned back into locals and nested functions of {F.name}')
+
     def _expand_composed_decorators(self, tree):
         """`def deco(f): return A(B(f))` used as `@deco` is the decorator stack `@A` / `@B`."""
         composed = {}
@@ -3761,6 +3905,7 @@ class Normalizer:
             ast.fix_missing_locations(tree)
         self._rehome_moved_definitions()
         self._flatten_new_bases()
+        self._new_class_to_closures()
         self._record_methods_to_functions()
         self._new_record_fields_to_locals()
         self._explode_parameter_objects()
